@@ -503,7 +503,7 @@ func callSSA(i *interpreter, caller *frame, callpos token.Pos, fn *ssa.Function,
 			extCache.Store(fn, e)
 			ext = e
 		}
-		if e := ext.(externalFn); e != nil {
+		if e := ext.(externalFn); e != nil && !fr.bypassExternal(args) {
 			fr.caller = caller
 			i.px.curFrame = fr
 			return e(fr, args)
@@ -704,4 +704,19 @@ func calleeName(fn value) string {
 		return f.Fn.String()
 	}
 	return "?"
+}
+
+// bypassExternal: some std functions have a host implementation for concrete
+// arguments but are interpreted from their Go source when an argument is a
+// symbolic string (so that the solver reasons about the real std code).
+func (fr *frame) bypassExternal(args []value) bool {
+	if fr.fn.Blocks == nil || fr.fn.Pkg == nil {
+		return false
+	}
+	switch fr.fn.String() {
+	case "strconv.Atoi", "strconv.ParseInt", "strconv.ParseUint":
+		_, ok := args[0].(sstr)
+		return ok
+	}
+	return false
 }
